@@ -217,6 +217,11 @@ def run_attack(case):
     ng_ = 256 if cipher == 'aes' else 64
     bs = [100, 400, n, ng_, ng_][int(rng.integers(5))]          # incl. batches of exactly as many traces as guesses
     meta = {tag: data}
+    if rng.random() < 0.3:
+        # unrelated metadata that happens to be called like the arguments of the wrapped functions
+        meta['data'] = rng.integers(0, 256, data.shape).astype('uint8')
+        meta['counter'] = np.arange(n, dtype='int64').reshape(n, 1)
+        t.count('trace_sets_with_a_field_named_data')
     ths = scared.traces.read_ths_from_ram(samples=samples, **meta)
     ark = 'AddRoundKey' in case['name']
     disc = scared.nanmax if ark else [scared.maxabs, scared.maxabs, scared.nanmax][int(rng.integers(3))]
